@@ -81,8 +81,11 @@ def h1(ctx):
         if hname in ("Owned", "RefMut"):
             yield Ob(key_of("C13-H1", b.path, "drop_in_place-at-most-once"), len(dips) >= 1 and not multi, "value dropped at most once per path (%d site(s))" % len(dips), b.loc())
             # and the value drop precedes the release of its memory
-            okp = all(any(d["bb"] in b.reach(p["bb"]) for d in ds) for p in dips)
-            yield Ob(key_of("C13-H1", b.path, "drop-before-dealloc"), okp, "drop_in_place is followed by the dealloc of the same handle", b.loc())
+            # a zero-sized value (Kind::Dangling) owns no memory: its drop is not followed by a dealloc
+            def dangling(p):
+                return any(f[0] == "discr" and tag(f[1]) == "hload" and f[1][2] == ("kind",) and f[2][0] == "eq" and ctx.facts.variant_by_discr("object::Kind", f[2][1]) == "Dangling" for f in ctx.facts_of(ev, p))
+            okp = all(dangling(p) or any(d["bb"] in b.reach(p["bb"]) for d in ds) for p in dips)
+            yield Ob(key_of("C13-H1", b.path, "drop-before-dealloc"), okp, "drop_in_place is followed by the dealloc of the same handle (except for zero-sized values, which own no memory)", b.loc())
         else:
             yield Ob(key_of("C13-H1", b.path, "no-drop_in_place"), not dips, "byte handles drop no value", b.loc())
 
@@ -212,7 +215,12 @@ def r3(ctx):
                 ok = bool(re.search(r"Arena as (?:std|core)::ops::Drop>::drop$", b.path))
                 yield Ob(key_of("C13-R3", b.path, "unmount-caller"), ok, "unmount called from %s" % b.path, b.loc(bi))
             if re.search(r"mem::forget$|ManuallyDrop", c):
-                yield Ob(key_of("C13-R3", b.path, "forget"), False, "%s used in %s: a forgotten arena never releases its reference" % (c, b.path), b.loc(bi))
+                # forgetting the user's (generic) value when it is moved into a zero-sized slot is how a ZST is "stored"; what must never be
+                # forgotten is an arena or anything that embeds one
+                substs = " ".join(t.get("substs", []) or [])
+                generic_value = bool(re.fullmatch(r"\s*T\s*", substs)) and re.search(r"^object::(Owned|RefMut)::<.*>::write$", b.path) is not None
+                yield Ob(key_of("C13-R3", b.path, "forget"), generic_value, "%s<%s> used in %s: %s" % (c, substs, b.path, "the moved-in value of a zero-sized slot" if generic_value else
+                         "a forgotten arena never releases its reference"), b.loc(bi))
             if c.endswith("Box::<T>::from_raw") and any("memory::Memory" in s for s in t.get("substs", [])):
                 ok = bool(re.search(r"Arena as (?:std|core)::ops::Drop>::drop$", b.path))
                 yield Ob(key_of("C13-R3", b.path, "memory-free"), ok, "Box::<Memory>::from_raw in %s" % b.path, b.loc(bi))
@@ -285,3 +293,28 @@ def field_type(ctx, b, path):
             return None
         cur_adt = ctx.facts.adts.get(re.sub(r"<.*$", "", fty))
     return fty
+
+
+@rule("C13-H5", "C13", 4, "a value handed to write() is moved into the handle on every path (ptr::write / mem::forget), never dropped by write itself; and the Drop impl "
+      "of the typed handles drops the value in every Kind that can hold a type that needs dropping - Slot and Dangling (zero-sized types may need dropping too), "
+      "not detached only")
+def h5(ctx):
+    for pat in (r"^object::Owned::<T, A>::write$", r"^object::RefMut::<'a, T, A>::write$"):
+        b = ctx.facts.one(pat)
+        ev, res = ctx.eval(b)
+        VAL = ("param", 1, "value")
+        dropped = [e for e in res.log if e["kind"] == "drop" and not e["chain"] and e.get("value") == VAL]
+        yield Ob(key_of("C13-H5", b.path, "write-moves-the-value"), not dropped, "write never drops its argument (%d drop(s) of `value` found: a zero-sized value would be destroyed at write time and again by "
+                 "the documented detach protocol)" % len(dropped), ctx.loc(dropped[0]) if dropped else b.loc())
+    for hname in ("Owned", "RefMut"):
+        pat, flag = DROPS[hname]
+        b = ctx.facts.one(pat)
+        ev, res = ctx.eval(b)
+        dips = [e for e in res.log if e["kind"] == "call" and not e["chain"] and e.get("effect") == "drop_in_place"]
+        arms = set()
+        for e in dips:
+            for f in ctx.facts_of(ev, e):
+                if f[0] == "discr" and tag(f[1]) == "hload" and f[1][2] == ("kind",) and f[2][0] == "eq":
+                    arms.add(ctx.facts.variant_by_discr("object::Kind", f[2][1]))
+        ok = {"Slot", "Dangling"} <= arms
+        yield Ob(key_of("C13-H5", b.path, "every-owning-kind-drops"), ok, "drop_in_place is reached in the arms %s (needed: Slot and Dangling)" % sorted(a for a in arms if a), b.loc())
